@@ -600,6 +600,50 @@ def tuned_tot(rng, target):
     return nodes
 
 
+# ----------------------------------------------------------------------------- maximal records
+
+def maximal_records(rng, full=True):
+    """Class "maximal records": for every freedom of a foreign encoder that makes one cell record longer - stored hashes
+    (none / only that cell / all), every level mask 0..7 (1..4 stored (hash, depth) pairs), every reference count, every
+    reference width size_bytes 1..4 - the ordinary cell with the LARGEST possible record (1023 data bits = 128 data bytes,
+    4 references) and its neighbours one step below in every dimension (1017 bits = last length of 128 bytes, 1016 = first of
+    127, one reference fewer), plus one interior record.  A mask m > 0 on an ordinary cell is obtained from a pruned-branch
+    child of mask m.  The big cell is the root or sits under a small parent (so it is not the first record of the cell data).
+    -> [(tag, nodes, order, roots, size, magic, store)]"""
+    out = []
+    for mask in range(8):
+        k = G.popcount(mask)
+        for size in (1, 2, 3, 4):
+            shapes = [(1023, 4), (1017, 4), (1016, 4), (1023, 3), (rng.randrange(1, 1016), rng.randrange(1 if mask else 0, 5))]
+            if full:
+                shapes += [(rng.randrange(1017, 1024), 4), (1023, rng.randrange(1 if mask else 0, 3))]
+            for nb, nr in shapes:
+                nodes = []
+                if mask:
+                    nodes.append((G.PRUNED, G.pruned_bits(mask, [rng.randbytes(32) for _ in range(k)],
+                                                          [rng.randrange(1000) for _ in range(k)]), ()))
+                while len(nodes) < nr:
+                    nodes.append((G.ORD, G.rand_bits(rng, rng.choice([0, 1, 8, 9, 1023]) if len(nodes) == nr - 1 else rng.randrange(0, 40)), ()))
+                kids = list(range(nr))
+                rng.shuffle(kids)
+                nodes.append((G.ORD, G.rand_bits(rng, nb - 1) + '1' if rng.random() < 0.5 else G.rand_bits(rng, nb), tuple(kids)))
+                big = len(nodes) - 1
+                top = big
+                if rng.random() < 0.5:
+                    nodes.append((G.ORD, G.rand_bits(rng, rng.randrange(0, 16)), (big,)))
+                    top = len(nodes) - 1
+                order = list(range(len(nodes) - 1, -1, -1))
+                tail = order[order.index(big) + 1:]
+                rng.shuffle(tail)
+                order = order[:order.index(big) + 1] + tail
+                for sm in (('all', 'big') if not full and (nb, nr) != (1023, 4) else ('all', 'big', 'none')):
+                    store = [sm == 'all' or (sm == 'big' and nid == big) for nid in order]
+                    magic = 'gic'[(mask + size + nb + nr + len(sm)) % 3]
+                    out.append((f'max-m{mask}-s{size}-b{nb}-r{nr}-{sm}{"-p" if top != big else ""}', nodes, order, [top], size, magic, store))
+    return out
+
+
+
 # ----------------------------------------------------------------------------- search after a broken source obligation
 
 def boundary_inputs(rng):
@@ -722,6 +766,11 @@ def cell_grid(rng):
         if db.ok(top):
             members = sorted(reachable(db.nodes, [top]))
             add(f'src-exotic{t}', db.nodes, random_order(rng, db.nodes, set(members), first=top), [top], 1 + t % 2, magic='gic'[t % 3])
+    # maximal records: the longest record every encoder freedom allows, and its neighbours
+    state = rng.getstate()              # the grids built after this one keep their own draws
+    for tag, nodes, order, roots, size, magic, store in maximal_records(rng, full=False):
+        add('src-' + tag, nodes, order, roots, size, off=2, magic=magic, idx=magic != 'g', store=store)
+    rng.setstate(state)
     return out
 
 
@@ -955,6 +1004,23 @@ def run(ctx):
             ctx.count('stored-hashes-targeted')
             check_accept(ctx, case, spec, f'stored-mask{mask}-{magic}')
 
+    # maximal records: for every encoder freedom the longest possible cell record (and its neighbours)
+    state_before_maximal = rng.getstate()      # the streams below keep their own draws
+    for tag, nodes, order, roots, size, magic, store in maximal_records(rng):
+        spec = G.spec_dag(nodes)
+        recs = listing(nodes, spec, order)
+        fr = gen_freedoms(rng, recs, 1, magic=magic)
+        fr['size'] = size
+        fr['store'] = store
+        tot = sum(len(enc_record(r, size, store[k])) for k, r in enumerate(recs))
+        fr['off'] = max(fr['off'], min_bytes(2 * tot + 1))
+        case = dict(nodes=nodes, order=order, roots=roots, recs=recs, rpos=[order.index(r) for r in roots], fr=fr)
+        big = max(len(enc_record(r, size, store[k])) for k, r in enumerate(recs))
+        ctx.count('maximal-record')
+        ctx.count('maximal-record-slack:%d' % min(2 + 4 * 34 + 128 + 4 * size - big, 9))
+        check_accept(ctx, case, spec, tag, use_lean_encoder=tag.endswith(('all', 'all-p')) and '-b1023-r4' in tag)
+    rng.setstate(state_before_maximal)
+
     # minimal-width boundaries: 255 / 256 / 257 cells; cell data of 255 / 256 bytes
     for n in (255, 256, 257):
         nodes = exact_cells(rng, n)
@@ -1048,3 +1114,11 @@ def replay(ctx, payload):
         d = bytes.fromhex(inp['boc'])
         ctx.case(('replay', d))
         corr(ctx, d, lib_parse(d), 'replay')
+
+
+# ----------------------------------------------------------------------------- round 10 (st-nfif): SPEC texts of the maximal-records class
+SPEC['manifest']['text'] += (' MAXIMAL RECORDS (sampled, every run): for every encoder freedom that lengthens one cell record (stored hashes none / '
+                             'that cell / all, level mask 0..7, reference width 1..4) the ordinary cell with the largest possible record (1023 data bits, 4 references) '
+                             'and its neighbours one step down in each dimension, as root or under a small parent - in the positive stream and in the grid the '
+                             'failing-input search evaluates after a broken source obligation.')
+SPEC['rule'] += ('; maximal records: masks 0..7 x size 1..4 x stored hashes (all / big cell / none) x (1023|1017|1016 bits, 4|3 refs, one interior) = 672 bags per run')
